@@ -77,6 +77,9 @@ package dnum
 //@ spec dnIsInt(d Dnum) bool = d.sign == 0 || ((d.sign == 1 || d.sign == -1) && ((0 < d.exp && d.exp < 16 && d.coef % p10(16 - d.exp) == 0) || (16 <= d.exp && d.exp <= 19)))
 //@ spec dnIntVal(d Dnum) int = d.sign == 0 ? 0 : d.exp < 16 ? d.sign * (d.coef / p10(16 - d.exp)) : d.sign * d.coef * p10(d.exp - 16)
 
+// on integer valued decimals the decimal order is the integer order
+//@ lemma! less_int(x Dnum, y Dnum): validDnum(x) && validDnum(y) && dnIsInt(x) && dnIsInt(y) ==> (dnLess(x, y) <==> dnIntVal(x) < dnIntVal(y))
+
 //@ func FromInt(n) (r)
 //@   arith wrap
 //@   ensures! exact: -9999999999999999 <= n && n <= 9999999999999999 ==> dnIsInt(r) && dnIntVal(r) == n
